@@ -43,3 +43,5 @@ bool json_parse(const std::string &s, JV &out);
 // semantic equality: numbers as doubles, objects as unordered (first occurrence of duplicate keys wins)
 bool json_equal(const JV &a, const JV &b);
 std::string json_escape(const std::string &s);
+// does any string (member name or value) contain a NUL byte? A daemon that keeps strings as C strings cannot represent such a text.
+bool jv_has_nul(const JV &v);
